@@ -822,6 +822,15 @@ def check_cmp_fn(ctx, F, fn, rule):
             return g is not None and g.impl and g.impl.get("self_ty") == MADE_HAND and I.getter_field(g) is not None \
                 and I.getter_field(g)[0] == 0
         return False
+    if t[0] == "agg" and t[1] == "adt:std::option::Option::Some" and len(t[2]) == 1 and fn.path.endswith("::partial_cmp"):
+        # canonical `Some(self.cmp(other))`: the order is the one of `Ord for MadeHand` (derived on the single field, or
+        # hand-written and checked by this same rule)
+        c = P.strip(t[2][0], calls=False)
+        if c[0] == "call" and c[1] == f"<{MADE_HAND} as std::cmp::Ord>::cmp" and \
+                [P.strip(x) for x in c[2]] == [("param", 1), ("param", 2)]:
+            ctx.ok(rule, f"{fn.path}: Some(Ord::cmp(self, other))")
+            return
+        raise U(rule, f"{fn.path}: result is not a comparison: {P.show(t)}", fn)
     if t[0] == "call" and len(t[2]) == 2:
         callee = t[1]
         ok_callee = ("for u16>::" in callee) and callee.rsplit("::", 1)[-1] == fn.path.rsplit("::", 1)[-1]
